@@ -39,14 +39,14 @@ type vfC33Comment struct {
 }
 
 type vfC33Cfg struct {
-	SampleRate *uint32        `json:"sample_rate,omitempty"`
-	Channels   int            `json:"channels"`          // 0 = option not used, 1|2 = WithChannelCount
-	Family     int            `json:"family"`            // with Mapping != nil: WithChannelMapping(family, 1, coupled, mapping)
-	Coupled    int            `json:"coupled"`           //
-	Mapping    []byte         `json:"mapping,omitempty"` //
-	Vendor     *string        `json:"vendor,omitempty"`
-	VendorPad  int            `json:"vendor_pad"` // extra 'v' characters appended to the vendor string (long tags)
-	Comments   []vfC33Comment `json:"comments,omitempty"`
+	SampleRate  *uint32          `json:"sample_rate,omitempty"`
+	Channels    int              `json:"channels"`          // 0 = option not used, 1|2 = WithChannelCount
+	Family      int              `json:"family"`            // with Mapping != nil: WithChannelMapping(family, 1, coupled, mapping)
+	Coupled     int              `json:"coupled"`           //
+	Mapping     []byte           `json:"mapping,omitempty"` //
+	Vendor      *string          `json:"vendor,omitempty"`
+	VendorPad   int              `json:"vendor_pad"`             // extra 'v' characters appended to the vendor string (long tags)
+	CommentOpts [][]vfC33Comment `json:"comment_opts,omitempty"` // one WithUserComments option per entry (an entry may be empty)
 }
 
 type vfC33Track struct {
@@ -258,9 +258,9 @@ func vfC33Opts(c vfC33Cfg) (w []oggwriter.WriterOption, t []oggwriter.TrackOptio
 	if c.Vendor != nil {
 		add(oggwriter.WithVendor(vfC33Vendor(c)))
 	}
-	if len(c.Comments) > 0 {
+	for _, grp := range c.CommentOpts {
 		var uc []oggwriter.UserComment
-		for _, x := range c.Comments {
+		for _, x := range grp {
 			uc = append(uc, oggwriter.UserComment{Comment: x.K, Value: x.V})
 		}
 		add(oggwriter.WithUserComments(uc...))
@@ -288,7 +288,9 @@ func (e *vfC33Expect) apply(c vfC33Cfg) {
 	if c.Vendor != nil {
 		e.vendor = vfC33Vendor(c)
 	}
-	e.comments = append(e.comments, c.Comments...)
+	for _, grp := range c.CommentOpts {
+		e.comments = append(e.comments[:len(e.comments):len(e.comments)], grp...) // never share a backing array between tracks
+	}
 }
 
 func vfC33Run(v *vfT, c vfC33Case) {
@@ -444,6 +446,31 @@ func vfC33Run(v *vfT, c vfC33Case) {
 		v.NonTrivial()
 	}
 	v.Label(fmt.Sprintf("tracks=%d", len(c.Tracks)))
+	if !single {
+		wc, own, big := 0, 0, false
+		for _, g := range c.Writer.CommentOpts {
+			wc += len(g)
+			big = big || len(g) >= 17
+		}
+		for _, tr := range c.Tracks {
+			n := 0
+			for _, g := range tr.Cfg.CommentOpts {
+				n += len(g)
+			}
+			if n > 0 {
+				own++
+			}
+		}
+		if wc > 0 && (len(c.Writer.CommentOpts) >= 2 || big) {
+			v.Label("writer-comments-from-2+-options-or-17+")
+			if own >= 2 {
+				v.Label("writer-comments-from-2+-options-or-17+/and-2+-tracks-add-their-own")
+			}
+		}
+		if own >= 2 {
+			v.Label("2+-tracks-add-their-own-comments")
+		}
+	}
 
 	// ---- 2. independent parse
 	pages, perr := vfC33ParsePages(file)
@@ -679,7 +706,7 @@ func vfC33CheckHead(v *vfT, cls func(string) string, ti int, h *oggreader.OggHea
 
 // ---------------------------------------------------------------------------------------------
 
-func vfC33GenCfg(t *rapid.T, allowNone bool) vfC33Cfg {
+func vfC33GenCfg(t *rapid.T, writerLevel bool) vfC33Cfg {
 	var c vfC33Cfg
 	if rapid.IntRange(0, 2).Draw(t, "sr?") == 0 {
 		sr := rapid.OneOf(rapid.SampledFrom([]uint32{48000, 8000, 16000, 44100, 0}), rapid.Uint32()).Draw(t, "sr")
@@ -701,18 +728,32 @@ func vfC33GenCfg(t *rapid.T, allowNone bool) vfC33Cfg {
 		c.Coupled = rapid.IntRange(0, 1).Draw(t, "coupled")
 		c.Mapping = rapid.SliceOfN(rapid.SampledFrom([]byte{0, 255, byte(c.Coupled)}), 1, 8).Draw(t, "mapping")
 	}
-	if rapid.IntRange(0, 2).Draw(t, "vendor?") == 0 {
+	if rapid.IntRange(0, 2).Draw(t, "vendor?") == 0 || (!writerLevel && rapid.Bool().Draw(t, "trackvendor?")) {
 		vd := rapid.OneOf(rapid.SampledFrom([]string{"", "pion", "verif ✓"}), rapid.StringN(0, 20, 60)).Draw(t, "vendor")
 		c.Vendor = &vd
-		c.VendorPad = rapid.OneOf(rapid.Just(0), rapid.Just(0), rapid.IntRange(200, 300), rapid.SampledFrom([]int{237, 238, 239, 64990, 65010, 66000})).Draw(t, "vpad")
+		c.VendorPad = rapid.OneOf(rapid.Just(0), rapid.Just(0), rapid.Just(0), rapid.Just(0), rapid.IntRange(200, 300), rapid.SampledFrom([]int{237, 238, 239, 64990, 65010, 66000})).Draw(t, "vpad")
 	}
-	if rapid.IntRange(0, 2).Draw(t, "comments?") == 0 {
-		n := rapid.IntRange(1, 3).Draw(t, "ncomments")
-		for i := 0; i < n; i++ {
-			k := rapid.StringOfN(rapid.SampledFrom(vfC33KeyRunes), 1, 12, -1).Draw(t, "key")
-			val := rapid.OneOf(rapid.SampledFrom([]string{"", "=", "a=b", "x"}), rapid.StringN(0, 30, 90)).Draw(t, "val")
-			c.Comments = append(c.Comments, vfC33Comment{k, val})
+	comment := func() vfC33Comment {
+		k := rapid.OneOf(rapid.SampledFrom([]string{"ARTIST", "TITLE", "T"}), rapid.StringOfN(rapid.SampledFrom(vfC33KeyRunes), 1, 12, -1)).Draw(t, "key")
+		val := rapid.OneOf(rapid.StringN(0, 30, 90), rapid.StringN(1, 8, 30), rapid.SampledFrom([]string{"", "=", "a=b", "x"})).Draw(t, "val")
+		return vfC33Comment{k, val}
+	}
+	var nopts int
+	if writerLevel {
+		nopts = rapid.SampledFrom([]int{0, 1, 1, 2, 2, 2, 3, 3}).Draw(t, "ncommentopts")
+	} else {
+		nopts = rapid.SampledFrom([]int{0, 1, 1, 1, 1, 2}).Draw(t, "ncommentopts")
+	}
+	for o := 0; o < nopts; o++ {
+		n := rapid.OneOf(rapid.IntRange(0, 3), rapid.IntRange(1, 2), rapid.IntRange(0, 20)).Draw(t, "ncomments")
+		if !writerLevel {
+			n = rapid.OneOf(rapid.IntRange(1, 2), rapid.IntRange(0, 4)).Draw(t, "ntrackcomments")
 		}
+		grp := []vfC33Comment{}
+		for i := 0; i < n; i++ {
+			grp = append(grp, comment())
+		}
+		c.CommentOpts = append(c.CommentOpts, grp)
 	}
 	return c
 }
@@ -761,7 +802,7 @@ func vfC33Gen(v *vfT) vfC33Case {
 			tr.SingleCh = rapid.IntRange(1, 2).Draw(t, "ch")
 			tr.SingleSR = rapid.OneOf(rapid.SampledFrom([]uint32{48000, 8000, 16000, 0}), rapid.Uint32()).Draw(t, "sr")
 		} else {
-			tr.Cfg = vfC33GenCfg(t, true)
+			tr.Cfg = vfC33GenCfg(t, false)
 			if rapid.Bool().Draw(t, "serial?") {
 				s := uint32(0xA0000000) + uint32(i)*7 + rapid.Uint32Range(0, 3).Draw(t, "serial")
 				tr.Serial = &s
@@ -778,7 +819,7 @@ func vfC33Gen(v *vfT) vfC33Case {
 
 func TestVerif_C33_Ogg(t *testing.T) {
 	vfProperty(t, "C33", vfOpts{
-		Rule: "writer mode in {OggWriter.NewWith, OggWriter.New(file), multi-track Writer plain, multi-track Writer with WithSeekableOutput}; 1..4 tracks with generated sample rate, channel count / channel mapping family 0,1,2,255, vendor (also > 255 bytes and > 65025 bytes) and user comments ('=' in values, empty values) at writer and track level, explicit or random serials; 0..30 Opus packets over all 32 TOC configs x code 0..3, code-3 frame counts around the 120 ms limit (incl. 0 and too many: must be refused or are skipped), sizes 1..1300 plus 254..256, 509..511, 765, 1275 and rarely 0, 64770, 65024..65026, 65280, 70000, interleaved over the tracks; non-trivial = at least two accepted data packets",
+		Rule: "writer mode in {OggWriter.NewWith, OggWriter.New(file), multi-track Writer plain, multi-track Writer with WithSeekableOutput}; 1..4 tracks with generated sample rate, channel count / channel mapping family 0,1,2,255, vendor (also > 255 bytes and > 65025 bytes) writer-level user comments through 0..3 separate WithUserComments options of 0..20 comments each and per-track vendor and comment options on most tracks ('=' in values, empty values), explicit or random serials; 0..30 Opus packets over all 32 TOC configs x code 0..3, code-3 frame counts around the 120 ms limit (incl. 0 and too many: must be refused or are skipped), sizes 1..1300 plus 254..256, 509..511, 765, 1275 and rarely 0, 64770, 65024..65026, 65280, 70000, interleaved over the tracks; non-trivial = at least two accepted data packets",
 		Assumptions: []string{
 			"RFC 3533 page layout and CRC, RFC 7845 header packets and RFC 6716 section 3.1 frame durations as implemented by the harness are the format definition",
 			"granule positions are compared on pages that complete a packet (and on payload-less pages); on a page that only continues a packet the value is counted, not asserted",
